@@ -172,6 +172,7 @@ class World(object):
         self.globals = []       # gid -> (module, name)
         self.fieldtypes = {}    # (class|'?', field) -> typeset
         self.fields = {}        # field name -> index
+        self.inheritance = False
         self.class_attrs = {}   # (class, name) -> ('scalar',) | ('object', gid, typeset): class-level data
         self.assumptions = set()
         self.giveups = []
@@ -201,6 +202,8 @@ class World(object):
                         continue
                     self.add_fn(Fn(mod, None, n.name, n))
                 elif isinstance(n, ast.ClassDef):
+                    if any(not (isinstance(b, ast.Name) and b.id == 'object') for b in n.bases):
+                        self.inheritance = True       # method resolution is not by the class alone any more
                     self.classes[n.name] = {}
                     self.class_module[n.name] = mod
                     for b in n.body:
@@ -349,6 +352,8 @@ def elem_type(t):
         elif isinstance(x, tuple) and x[0] == 'T':
             for e in x[1]:
                 out |= set(e or TU)
+        elif isinstance(x, tuple) and x[0] == 'IT':
+            out.add(T(list(x[1])))      # an element of zip(...) / enumerate(...) is a tuple of elements
         elif x == LST:
             out.add(OBJ)        # ASSUMPTION: sequences whose element type is not documented hold numbers
                                 # or library objects, not nested builtin containers
@@ -537,6 +542,21 @@ class Typer(object):
             out |= set(f.ret)
         return frozenset(out)
 
+    def reflected_possible(self, tl, fwd):
+        """May Python fall back to the right operand's reflected method for `l <op> r`?  Only when the left
+        operand may be a plain value, or a class that lacks the forward method `fwd`, or whose forward
+        method can return NotImplemented.  (No class of the package derives from another one, so the
+        subclass-priority rule of reflected operands never applies.)"""
+        if self.may_be_plain(tl) or self.w.inheritance:
+            return True
+        for c in self.classes_of(tl):
+            m = self.w.classes[c].get(fwd)
+            if m is None:
+                return True
+            if any(isinstance(n, ast.Name) and n.id == 'NotImplemented' for n in ast.walk(m.node)):
+                return True
+        return False
+
     def binop_type(self, op, tl, tr):
         if not tl or not tr:
             return frozenset()
@@ -549,10 +569,11 @@ class Typer(object):
             m = self.w.classes[c].get('__%s__' % op)
             if m:
                 out |= set(m.ret)
-        for c in self.classes_of(tr):
-            m = self.w.classes[c].get('__r%s__' % op)
-            if m:
-                out |= set(m.ret)
+        if self.reflected_possible(tl, '__%s__' % op):
+            for c in self.classes_of(tr):
+                m = self.w.classes[c].get('__r%s__' % op)
+                if m:
+                    out |= set(m.ret)
         if self.may_be_plain(tl) and self.may_be_plain(tr):
             pl = set(x for x in tl if not (isinstance(x, tuple) and x[0] == 'C'))
             pr = set(x for x in tr if not (isinstance(x, tuple) and x[0] == 'C'))
@@ -972,7 +993,11 @@ class Typer(object):
                 return frozenset((x if (isinstance(x, tuple) and x[0] == 'N') else LST) for x in at[0])
             if n in ('range',):
                 return fs(N(1))
-            if n in ('enumerate', 'zip', 'map', 'filter'):
+            if n == 'zip':
+                return fs(('IT', tuple(elem_type(a) for a in at))) if all(at) else frozenset()
+            if n == 'enumerate':
+                return (fs(('IT', (TS, elem_type(at[0])))) if at[0] else frozenset()) if at else fs(LST)
+            if n in ('map', 'filter'):
                 return fs(LST)
             if n in EXC_NAMES:
                 return fs(EXT)
@@ -1450,7 +1475,10 @@ class Tr(object):
                             self.dunder([('__eq__', el, elem_type(tr) or TU, [self.S])], True, result_scalar=True)
                 elif not (is_num(tl) and is_num(tr)):
                     m, rm = CMPOP[type(op)]
-                    self.dunder([(m, vl, tl, [self.v(vr)]), (rm, vr, tr, [self.v(vl)])], True, result_scalar=True)
+                    cmpc = [(m, vl, tl, [self.v(vr)])]
+                    if self.ty_.reflected_possible(tl, m):
+                        cmpc.append((rm, vr, tr, [self.v(vl)]))
+                    self.dunder(cmpc, True, result_scalar=True)
                 left, vl = right, vr
             return None
         if isinstance(e, ast.BoolOp):
@@ -1624,7 +1652,8 @@ class Tr(object):
         if inplace_target is not None:
             cands.append(('__i%s__' % op, vl, tl, [self.v(vr)]))
         cands.append(('__%s__' % op, vl, tl, [self.v(vr)]))
-        cands.append(('__r%s__' % op, vr, tr, [self.v(vl)]))
+        if self.ty_.reflected_possible(tl, '__%s__' % op):
+            cands.append(('__r%s__' % op, vr, tr, [self.v(vl)]))
         plain_l, plain_r = self.ty_.may_be_plain(tl), self.ty_.may_be_plain(tr)
         r = self.newtmp('o')
         alts = []
@@ -1968,6 +1997,23 @@ class Tr(object):
             r = self.newtmp('l')
             self.emit('new', r)
             return r
+        if n in ('zip', 'enumerate') and not call.keywords and not any(isinstance(a, ast.Starred) for a in args):
+            # as a value: a new sequence of new tuples holding the elements of the arguments
+            vs = [(self.expr(a), self.ty(a)) for a in args]
+            r = self.newtmp('z')
+            tup = self.newtmp('zt')
+            self.emit('new', r)
+            self.emit('new', tup)
+            for (vx, tx) in vs:
+                if vx is not None and not is_scalar(elem_type(tx) or TU):
+                    cands = [c for c in self.ty_.classes_of(tx) if '__iter__' in self.w.classes[c] or '__getitem__' in self.w.classes[c]]
+                    if cands:
+                        raise Havoc('iteration over a library object')
+                    el = self.newtmp('e')
+                    self.emit('load', el, vx, 'e')
+                    self.emit('store', tup, 'e', el)
+            self.emit('store', r, 'e', tup)
+            return r
         if n in ('enumerate', 'zip', 'map', 'filter', 'iter', 'next'):
             raise Havoc('%s() outside a for statement' % n)
         if n in ('getattr', 'setattr', 'delattr', 'exec', 'eval', 'open', 'input', 'globals', 'locals', 'vars',
@@ -2310,7 +2356,8 @@ class Reject(Exception):
 def s_le(s1, s2):
     if s1[2]:
         return True
-    return (not s2[2]) and all(a_le(l_get(s1[0], i), l_get(s2[0], i)) for i in range(len(s2[0]))) and \
+    return (not s2[2]) and ((not s1[3]) or s2[3]) and \
+        all(a_le(l_get(s1[0], i), l_get(s2[0], i)) for i in range(len(s2[0]))) and \
         all(a_le(l_get(s1[1], i), l_get(s2[1], i)) for i in range(len(s2[1])))
 
 
@@ -2319,7 +2366,8 @@ def s_join(s1, s2):
         return s2
     if s2[2]:
         return s1
-    return ([a_join(a, b) for a, b in zip(s1[0], s2[0])], [a_join(a, b) for a, b in zip(s1[1], s2[1])], False)
+    return ([a_join(a, b) for a, b in zip(s1[0], s2[0])], [a_join(a, b) for a, b in zip(s1[1], s2[1])], False,
+            s1[3] or s2[3])
 
 
 def writable(me, a):
@@ -2331,12 +2379,23 @@ def writable(me, a):
 
 
 def store_fld(s, ax, sel, ay):
-    env, fld, dead = s
+    env, fld, dead, exposed = s
     if isinstance(ax, tuple):
         if ax[1] == 0 and sel != 'e':
-            return (env, l_set(fld, sel[1], ay), dead)
-        return (env, ['any'] * len(fld), dead)
+            return (env, l_set(fld, sel[1], ay), dead, exposed)
+        return (env, ['any'] * len(fld), dead, exposed)
     return s
+
+
+def expose(me, s):
+    """a reference to a new object is (or may be) stored into the own object of a parameter"""
+    if me['keeps'] and not me['exposes']:
+        raise Reject('exposes')
+    return (s[0], s[1], s[2], True)
+
+
+def s_degrade(s):
+    return ([a_degrade(a) for a in s[0]], [a_degrade(a) for a in s[1]], s[2], s[3])
 
 
 def aexec(sums, me, body, s):
@@ -2347,15 +2406,15 @@ def aexec(sums, me, body, s):
 
 def aexec1(sums, me, st, s):
     k = st[0]
-    env, fld, dead = s
+    env, fld, dead, exposed = s
     if k == 'scalar':
-        return (l_set(env, st[1], 'scal'), fld, dead)
+        return (l_set(env, st[1], 'scal'), fld, dead, exposed)
     if k == 'alias':
-        return (l_set(env, st[1], l_get(env, st[2])), fld, dead)
+        return (l_set(env, st[1], l_get(env, st[2])), fld, dead, exposed)
     if k == 'global':
-        return (l_set(env, st[1], 'any'), fld, dead)
+        return (l_set(env, st[1], 'any'), fld, dead, exposed)
     if k == 'new':
-        return (l_set(env, st[1], 'closed'), fld, dead)
+        return (l_set(env, st[1], 'closed'), fld, dead, exposed)
     if k == 'load':
         ay = l_get(env, st[2])
         if ay == 'closed':
@@ -2364,17 +2423,25 @@ def aexec1(sums, me, st, s):
             r = l_get(fld, st[3][1])
         else:
             r = 'any'
-        return (l_set(env, st[1], r), fld, dead)
+        return (l_set(env, st[1], r), fld, dead, exposed)
     if k == 'store':
         ax, ay = l_get(env, st[1]), l_get(env, st[3])
         if not writable(me, ax):
             raise Reject('write', ax)
+        isparam = isinstance(ax, tuple)
         if ay in ('scal', 'closed'):
-            return store_fld(s, ax, st[2], ay)
-        if me['keeps']:
+            s1 = store_fld(s, ax, st[2], ay)
+            if isparam and ay == 'closed':
+                return expose(me, s1)
+            return s1
+        if isparam:
+            if me['keeps']:
+                raise Reject('keeps')
+            s2 = store_fld(s_degrade(s), ax, st[2], ay)
+            return (s2[0], s2[1], s2[2], True)
+        if me['keeps'] and exposed:
             raise Reject('keeps')
-        s2 = ([a_degrade(a) for a in env], [a_degrade(a) for a in fld], dead)
-        return store_fld(s2, ax, st[2], ay)
+        return store_fld(s_degrade(s), ax, st[2], ay)
     if k == 'call':
         x, g, ys = st[1], st[2], st[3]
         cs = sums[g.id]
@@ -2384,18 +2451,24 @@ def aexec1(sums, me, st, s):
                 raise Reject('arity')
             if not writable(me, l_get(aargs, i)):
                 raise Reject('write', l_get(aargs, i))
-        s1 = s
-        if any(isinstance(l_get(aargs, i), tuple) for i in cs['writes']):
-            s1 = (env, ['any'] * len(fld), dead)
+        touches = any(isinstance(l_get(aargs, i), tuple) for i in cs['writes'])
+        s1 = (env, ['any'] * len(fld), dead, exposed) if touches else s
 
         def inst(aa, r):
             return l_get(aa, r[1]) if isinstance(r, tuple) else r
         if not cs['writes'] or cs['keeps']:
-            return (l_set(s1[0], x, inst(aargs, cs['ret'])), s1[1], dead)
-        if me['keeps']:
+            if touches and cs['exposes']:
+                s1 = expose(me, s1)
+            return (l_set(s1[0], x, inst(aargs, cs['ret'])), s1[1], s1[2], s1[3])
+        if touches:
+            if me['keeps']:
+                raise Reject('keeps')
+            s2 = s_degrade(s1)
+            return (l_set(s2[0], x, inst([l_get(s2[0], y) for y in ys], cs['ret'])), s2[1], s2[2], True)
+        if me['keeps'] and exposed:
             raise Reject('keeps')
-        s2 = ([a_degrade(a) for a in s1[0]], [a_degrade(a) for a in s1[1]], dead)
-        return (l_set(s2[0], x, inst([l_get(s2[0], y) for y in ys], cs['ret'])), s2[1], dead)
+        s2 = s_degrade(s1)
+        return (l_set(s2[0], x, inst([l_get(s2[0], y) for y in ys], cs['ret'])), s2[1], s2[2], s2[3])
     if k == 'ite':
         return s_join(aexec(sums, me, st[1], s), aexec(sums, me, st[2], s))
     if k == 'while':
@@ -2410,9 +2483,9 @@ def aexec1(sums, me, st, s):
         a = l_get(env, st[1])
         if not a_le(a, me['ret']):
             raise Reject('ret', a)
-        return (env, fld, True)
+        return (env, fld, True, exposed)
     if k == 'raise':
-        return (env, fld, True)
+        return (env, fld, True, exposed)
     raise AssertionError(k)
 
 
@@ -2420,7 +2493,7 @@ def infer_summaries(fns, nfields):
     """Least summaries (writes, keeps, ret) under which every body is accepted, by iteration from
     the most optimistic ones.  A function that cannot be accepted (write through `any`) keeps its
     last summary and is reported; the Lean check will reject it."""
-    sums = {f.id: {'writes': [], 'keeps': True, 'ret': 'scal'} for f in fns}
+    sums = {f.id: {'writes': [], 'keeps': True, 'exposes': False, 'ret': 'scal'} for f in fns}
     rejected = {}
     for rnd in range(60):
         changed = False
@@ -2428,13 +2501,15 @@ def infer_summaries(fns, nfields):
         for f in fns:
             me = sums[f.id]
             for _ in range(40):
-                entry = ([('param', i) for i in range(f.nparams)] + ['scal'] * (f.nvars - f.nparams), ['any'] * nfields, False)
+                entry = ([('param', i) for i in range(f.nparams)] + ['scal'] * (f.nvars - f.nparams), ['any'] * nfields, False, False)
                 try:
                     aexec(sums, me, f.body, entry)
                     break
                 except Reject as r:
                     if r.kind == 'write' and isinstance(r.data, tuple):
                         me['writes'] = sorted(set(me['writes']) | {r.data[1]})
+                    elif r.kind == 'exposes':
+                        me['exposes'] = True
                     elif r.kind == 'keeps':
                         me['keeps'] = False
                     elif r.kind == 'ret':
@@ -2597,8 +2672,8 @@ def build():
 
 
 def lean_sum(s):
-    return '⟨[%s], %s, %s⟩' % (', '.join(str(i) for i in s['writes']), 'true' if s['keeps'] else 'false',
-                               lean_aval(s['ret']))
+    return '⟨[%s], %s, %s, %s⟩' % (', '.join(str(i) for i in s['writes']), 'true' if s['keeps'] else 'false',
+                                   'true' if s['exposes'] else 'false', lean_aval(s['ret']))
 
 
 CHECK_TEMPLATE = """import Pymeeus.Gen.Effects.Current
@@ -2668,10 +2743,10 @@ import Pymeeus.Spec.Guards
 namespace Pymeeus.Effects.Current
 open Pymeeus.Effects
 def nfields : Nat := 1
-def f0 : FunDecl := ⟨"translator failure", 0, 2, blk [.global 0 0, .store 0 .elem 1], .pure, ⟨[], true, .scal⟩⟩
+def f0 : FunDecl := ⟨"translator failure", 0, 2, blk [.global 0 0, .store 0 .elem 1], .pure, ⟨[], true, false, .scal⟩⟩
 def funs : List FunDecl := [f0]
 def program : Program := ⟨nfields, funs⟩
-def sums : List Summary := [⟨[], true, .scal⟩]
+def sums : List Summary := [⟨[], true, false, .scal⟩]
 def guards : List (String × List Nat × Pymeeus.Guards.GForm) := [("translator failure", [1], .ff)]
 end Pymeeus.Effects.Current
 """
@@ -2776,6 +2851,203 @@ def ok_local_copy(x):
     t.append(x)
     t.sort()
     return t
+
+
+# ---- iteration helpers over module tables: reading is fine, writing a row is not
+ROWS = [[1.0, 2.0], [3.0, 4.0]]
+PAIRS = [(1.0, 2.0), (3.0, 4.0)]
+NAMES = [0.5, 1.5]
+
+
+def ok_zip_rows(x):
+    rows = zip(NAMES, PAIRS, ROWS)
+    acc = 0.0
+    for n, pair, row in rows:
+        a, b = pair
+        acc += n * a + b + row[0]
+    return acc
+
+
+def ok_enumerate(x):
+    acc = 0.0
+    for i, row in enumerate(ROWS):
+        acc += i * row[1]
+    pairs = enumerate(NAMES)
+    for i, v in pairs:
+        acc += v
+    return acc
+
+
+def ok_reversed_sorted_slices(x):
+    acc = 0.0
+    for row in reversed(ROWS):
+        acc += row[0]
+    for v in sorted(NAMES):
+        acc += v
+    for row in ROWS[1:]:
+        acc += row[1]
+    for i in range(len(ROWS)):
+        acc += ROWS[i][0]
+    tail = NAMES[1:]
+    tail.append(x)
+    return acc, tail
+
+
+def ok_condexpr_chain(x):
+    a = b = 0.0
+    t = ROWS[0] if x > 0 else ROWS[1]
+    a += t[0]
+    b += a
+    p, q = abs(x), max(NAMES)
+    first, second = PAIRS[0]
+    return a + b + p + q + first + second
+
+
+def zip_row_append(x):
+    for n, row in zip(NAMES, ROWS):
+        row.append(n)
+
+
+def zip_value_row_append(x):
+    rows = zip(NAMES, ROWS)
+    for n, row in rows:
+        row.append(n)
+
+
+def zip_iadd_list(x):
+    for n, row in zip(NAMES, ROWS):
+        row += [1]
+
+
+def zip_value_iadd_list(x):
+    rows = zip(NAMES, ROWS)
+    for n, row in rows:
+        row += [n]
+
+
+def enumerate_setitem(x):
+    for i, row in enumerate(ROWS):
+        row[0] = i
+
+
+def enumerate_value_setitem(x):
+    it = enumerate(ROWS)
+    for i, row in it:
+        row[0] = i
+
+
+def reversed_row_sort(x):
+    for row in reversed(ROWS):
+        row.sort()
+
+
+def slice_row_pop(x):
+    for row in ROWS[1:]:
+        row.pop()
+
+
+def sorted_rows_clear(x):
+    first = sorted(ROWS)[0]
+    first.clear()
+
+
+def condexpr_row_write(x):
+    t = ROWS[0] if x > 0 else [0.0]
+    t[0] = x
+
+
+def chained_alias_write(x):
+    a = b = ROWS[0]
+    b.append(x)
+
+
+def tuple_assign_write(x):
+    p, q = ROWS[0], list(ROWS[1])
+    p.append(x)
+
+
+def unpack_row_write(x):
+    first, second = ROWS
+    second[0] = x
+
+
+# ---- in-place operators: what `x += y` does follows from what the class's dunder does
+class V(object):
+    def __init__(self, v):
+        self._v = v
+
+    def __add__(self, b):
+        if isinstance(b, V):
+            return V(self._v + b._v)
+        return V(self._v + float(b))
+
+    def __iadd__(self, b):
+        return self + b
+
+    def reset(self):
+        self._v = 0.0
+        return self
+
+
+class W(object):
+    def __init__(self, v):
+        self._v = v
+
+    def __add__(self, b):
+        return W(self._v + float(b))
+
+    def __iadd__(self, b):
+        result = self + b
+        return result
+
+    def __isub__(self, b):
+        self = self + (-b)
+        return self
+
+    def reset(self):
+        self._v = 0.0
+
+
+class Bad(object):
+    def __init__(self, v):
+        self._v = v
+
+    def __iadd__(self, b):
+        self._v += b
+        return self
+
+
+def pair_of(x):
+    return V(x), W(x)
+
+
+def ok_iadd_forms(x):
+    v, w = pair_of(x)
+    v += x
+    w += x
+    w -= x
+    v.reset()
+    w.reset()
+    return v, w
+
+
+def ok_iadd_temporary(x, pieces):
+    v = V(sum(p for p in pieces))
+    v += x
+    return v.reset()
+
+
+def iadd_then_reset_parameter(v, x):
+    w = v
+    w += x
+    v.reset()
+
+
+def bad_iadd_caller(x):
+    z = Bad(x)
+    keep = z
+    z += 1.0
+    return keep
 '''
 
 
@@ -2790,10 +3062,15 @@ def selftest():
         os.makedirs(os.path.join(d, 'pymeeus'))
         open(os.path.join(d, 'pymeeus', 'hidden.py'), 'w').write(SELFTEST_SOURCE)
         REPO, PKG = d, os.path.join(d, 'pymeeus')
-        world, live, sums, rejected, nfields = build()
+        DOCUMENTED_MUTATORS.extend(['V.reset', 'W.reset'])
+        try:
+            world, live, sums, rejected, nfields = build()
+        finally:
+            del DOCUMENTED_MUTATORS[-2:]
         out = []
         for f in live:
-            expected_ok = f.name.startswith('ok_')
+            expected_ok = f.name.startswith('ok_') or f.name in ('__init__', 'pair_of', 'bad_iadd_caller') or \
+                (f.cls in ('V', 'W') and True)
             got_ok = f.qual not in rejected
             out.append((f.qual, expected_ok, got_ok))
         return out
